@@ -1,5 +1,5 @@
 (** * C19 — `dump` shows exactly the code that would have been generated *)
-From DX Require Import Syntax Tables Render GenBound GenAttrs IR GenType GenCmp GenImpl GenTop RenderOut LemTop LemDump.
+From DX Require Import Syntax Tables Render GenBound GenAttrs IR GenType GenCmp GenImpl GenTop RenderOut LemTop LemDump LemLists.
 
 (** Struct: an entry with `dump` is the undumped entry's outcome with "impls" turned into
     "dump of those impls"; errors stay errors. *)
@@ -48,6 +48,12 @@ Theorem C19_flags :
     = map (fun '(_, ia) => dx_dump a || match ia with Some x => ia_dump x | None => false end) (dx_items a).
 Proof. exact entries_of_args_dump. Qed.
 
+(** a shared `dump` is worth exactly an entry-level `dump` on every entry of its own list (and, by
+    [C15_lists_are_independent], on no entry of another list) *)
+Theorem C19_shared_dump_is_entrywise :
+  forall a, dx_dump a = true -> entries_of_args a = entries_of_args (with_entry_dumps a).
+Proof. exact shared_dump_is_entrywise. Qed.
+
 Print Assumptions C19_struct.
 Print Assumptions C19_enum_entries.
 Print Assumptions C19_enum.
@@ -55,3 +61,4 @@ Print Assumptions C19_impl.
 Print Assumptions C19_payload.
 Print Assumptions C19_context.
 Print Assumptions C19_flags.
+Print Assumptions C19_shared_dump_is_entrywise.
